@@ -268,12 +268,13 @@ Proof.
         destruct (delete_pending_flow _ _ _ _ DP) as (A1 & A2 & A3 & A4 & A5).
         destruct stuck; cbn [fst snd].
         -- apply SPost_deleted; auto.
-        -- set (c2 := cl_take_req_count (cl_cancel_stream c1 id c_InternalError) id).
+        -- (* the request is ended by whoever takes it off the table; the write loop writes RST_STREAM itself *)
+           destruct (cl_req_find (cc_reqQueued c1) id) as [tg|] eqn:RQ; cbn [fst snd]; [|apply SPost_deleted; auto].
+           cbv zeta. set (c2 := cl_take_req_count c1 id).
            assert (S2 : SF c1 c2).
-           { subst c2. unfold cl_take_req_count, cl_req_del, cl_cancel_stream, cl_write_out.
-             destruct (cc_closed c1); destruct (cl_req_find _ _); repeat split; auto. }
+           { subst c2. unfold cl_take_req_count, cl_req_del. rewrite RQ. repeat split; auto. }
            pose proof (SF_trans _ _ _ S2 (SF_ctx_upd c2 (pb_tag pb) (fun x => cl_ctx_resolve (ctu_finished x true) CEBody))) as (B1 & B2 & B3 & B4 & B5).
-           apply SPost_deleted; try congruence. exact I.
+           destruct (cl_can_write _); cbn [fst snd]; apply SPost_deleted; cc_cbn; try congruence; exact I.
     + (* a critical section *)
       cbv zeta. destruct (cs_conn_facts c pb id G R) as (W2 & SW2 & CW2 & O2 & ID2 & R2 & ST2 & E2). cbv zeta in *.
       pose proof (cs_n_facts hstate c pb) as [N1 N2]. pose proof (cs_n_clamp c pb) as NCL.
